@@ -890,7 +890,7 @@ func init() {
 		nontrivial: func(r *flowResult) bool { return r.report != nil && r.report.TopLeaves > 0 },
 	})
 	registerFlow("C14", &flowDef{
-		rule:   "C04's file-passing programs with extra unreferenced files, nested directories and TMPDIR files written by every job, under rolling/post/strict VDR with volatile / volatile=strict|false / retain; oracle at completion: no job tmp directory, no chunk-level file of a splitting stage, no file of a volatile (strict mode: any) stage that no top-level output or retain names; every path listed in any _vdrkill* gone; fork and pipestance report count/size == sum of the hook's own lstat inventories taken just before each removal; every vanished file covered by an inventoried removal; every removal inside the pipestance; canary beside it untouched. distinct = (shape hash, mode, schedule); non-trivial = at least one removal observed.",
+		rule:   "C04's file-passing programs with extra unreferenced files, nested directories and TMPDIR files written by every job, under rolling/post/strict VDR with volatile / volatile=strict|false / retain; oracle at completion: no job tmp directory, no chunk-level file of a splitting stage, no file of a volatile (strict mode: any) stage that no top-level output or retain names; every path listed in any _vdrkill* gone; fork and pipestance report count/size == sum of the hook's own lstat inventories taken just before each removal; every vanished file covered by an inventoried removal; every removal inside the pipestance; canary beside it untouched. Every fifth case is interrupted (handled signal at a VDR hook point, SIGKILL at a run-loop boundary) and restarted; every tenth is interrupted mid-run, its top-level pipeline directory is moved outside the pipestance directory and replaced by a symlink, and after the restart the files of completed jobs lying there must all still exist (unless post-processing moved them into outs/). distinct = (shape hash, mode, schedule); non-trivial = at least one removal observed.",
 		assume: []string{"report unit: filesystem entries created by jobs (runtime-made tmp/files directory inodes not counted), st_size bytes", "the verif hook inventory (util.VerifPoint vdr:remove*) walks the subtree immediately before os.RemoveAll"},
 		cases: func(c *vf.Ctx) []*flowCase {
 			n := c.Pick(120, 1500)
